@@ -11,7 +11,7 @@ import (
 
 // rvExceptions: reasoned exemptions of the reflect-validity rule (one symbol each).
 var rvExceptions = map[string]string{
-	"CallResults$1$1": "the results thunk re-reads results[i], which the validation loop of CallResults proved to be non-nil pointers before the thunk was built (the thunk is created only after every error return)",
+	"CallResults$ret1$MakeFunc1": "the results thunk re-reads results[i], which the validation loop of CallResults proved to be non-nil pointers before the thunk was built (the thunk is created only after every error return)",
 }
 
 // rvObligations converts E6 findings for the functions selected by pick.
@@ -76,7 +76,7 @@ func callableRules(c *Ctx) {
 		}
 	}
 	// options: the thunk is stored only after every error return; validation predicate
-	for _, name := range []string{"CallArgs$1", "CallResults$1", "CallResultsSlice$1"} {
+	for _, name := range []string{"CallArgs$ret1", "CallResults$ret1", "CallResultsSlice$ret1"} {
 		q := c.F(name)
 		if !q.ok() {
 			continue
@@ -97,7 +97,7 @@ func callableRules(c *Ctx) {
 			}
 			q.add("PATH", "an option that fails leaves the call configuration untouched", clean, "no store precedes the error return", r)
 		}
-		if name != "CallArgs$1" {
+		if name != "CallArgs$ret1" {
 			asg := P.CallsTo(q.fn, "invoke:reflect.Type.AssignableTo")
 			conv := P.CallsTo(q.fn, "invoke:reflect.Type.ConvertibleTo")
 			ok := len(asg) >= 1 && len(conv) == 0
@@ -168,7 +168,7 @@ func callableRules(c *Ctx) {
 		q.add("PATH", "arity mismatch is an error", len(rets) >= 3, "three returns: arity error, assignability error, success", nil)
 	}
 	// the args thunk passes exactly the given arguments: Set iff args[i] != nil
-	if q := c.F("CallArgs$1$1"); q.ok() {
+	if q := c.F("CallArgs$ret1$MakeFunc1"); q.ok() {
 		sets := P.CallsTo(q.fn, "(reflect.Value).Set")
 		if q.need(sets, "COND", "results[i].Set(ValueOf(args[i]))") {
 			s := sets[0]
@@ -190,7 +190,7 @@ func callableRules(c *Ctx) {
 	var stray []ssa.Instruction
 	for _, fn := range P.Funcs {
 		n := an.FuncName(fn)
-		if n == "CallArgs$1$1" || n == "CallResults$1$1" || n == "CallResultsSlice$1$1" {
+		if n == "CallArgs$ret1$MakeFunc1" || n == "CallResults$ret1$MakeFunc1" || n == "CallResultsSlice$ret1$MakeFunc1" {
 			continue
 		}
 		stray = append(stray, P.CallsTo(fn, "(reflect.Value).Set")...)
@@ -228,7 +228,7 @@ func init() {
 		Floors: []Floor{
 			floorRule("RV", "RV", 10),
 			floorKey("RV resolveArgs", 1, "RV/resolveArgs/"),
-			floorKey("RV CallResults", 2, "RV/CallResults$1/"),
+			floorKey("RV CallResults", 2, "RV/CallResults$ret1/"),
 			floorKey("validate-before-invoke", 4, "PATH/(*callable).Call/"),
 			floorRule("WR", "WR", 4),
 		},
